@@ -167,30 +167,43 @@ def _flag_guard(f, facts, bp_names, excluded):
             continue
         flag = m.group(1)
         init_true = False
-        cleared_under_bp_test = False
+        branches = {}  # 'outer' / 'other' / 'all' -> the flag is cleared there under a back-pointer test on the object that is written
         for n in walk_local(f.node):
             if isinstance(n, ast.Assign) and len(n.targets) == 1 and norm(n.targets[0]) == flag and isinstance(n.value, ast.Constant):
                 if n.value.value is True:
                     init_true = True
                 elif n.value.value is False:
-                    # every enclosing `if` up to a loop over the excluded set; one of the tests mentions x.bp vs self
+                    # every enclosing `if` up to a loop over the excluded set; one of the tests compares the back pointer with self.
+                    # An OuterPin handed in by the caller is a handle: the object that is written is the pin stored in the instance's
+                    # pin map, so in the OuterPin branch the test must read the stored pin (`<instance>.pins[...]`), not the handle.
                     p = getattr(n, "_parent", None)
-                    tests, loop = [], None
+                    prev = n
+                    tests, loop, branch = [], None, "all"
                     while p is not None and p is not f.node:
                         if isinstance(p, ast.If):
                             tests.append(norm(p.test))
+                            t = p.test
+                            if isinstance(t, ast.Call) and norm(t.func) == "isinstance" and len(t.args) == 2 and norm(t.args[1]).split(".")[-1] == "OuterPin":
+                                branch = "outer" if any(prev is s_ for s_ in p.body) else "other"
                         if isinstance(p, ast.For):
                             loop = p
                             break
+                        prev = p
                         p = getattr(p, "_parent", None)
                     if loop is not None and norm(loop.iter) == excluded:
                         var = norm(loop.target)
-                        for b in bp_names:
+                        hit = False
+                        for b_ in bp_names:
                             for t in tests:
-                                if re.search(r"%s\.%s\s*(!=|is not)\s*self" % (re.escape(var), re.escape(b)), t) or \
-                                        re.search(r"\.%s\s*(!=|is not)\s*self" % re.escape(b), t):
-                                    cleared_under_bp_test = True
-        if init_true and cleared_under_bp_test:
+                                if branch == "outer":
+                                    if re.search(r"\.pins\[[^\]]+\]\.%s\s*(!=|is not)\s*self" % re.escape(b_), t):
+                                        hit = True
+                                elif re.search(r"%s\.%s\s*(!=|is not)\s*self" % (re.escape(var), re.escape(b_)), t):
+                                    hit = True
+                        branches[branch] = branches.get(branch, False) or hit
+        split = "outer" in branches or "other" in branches
+        complete = ("outer" in branches and "other" in branches) if split else "all" in branches
+        if init_true and branches and complete and all(branches.values()):
             return True
     return False
 
